@@ -1,5 +1,14 @@
 """C12 - conveyors preserve order, spacing, capacity and minimum / exact travel time."""
-from ..common import Result, close, leq
+from ..common import Result, leq
+from ..common import close as _close
+
+_SCALE = [0.0]
+
+
+def close(a, b):
+    # instants measured relative to a large clock offset t0 carry the float spacing at t0 (about 2e-16 * t0 each)
+    return _close(a, b) or abs(a - b) <= 64 * 2.3e-16 * _SCALE[0]
+
 from ..harness_conv import ConvRun
 from .. import gen_conv
 
@@ -116,6 +125,7 @@ def run_factory(case):
 
 
 def run_case(case):
+    _SCALE[0] = float(case.get("t0") or 0.0)
     if "nodes" in case:
         return run_factory(case)
     res = Result()
